@@ -320,43 +320,57 @@ func (c cmdJ) encode() []byte {
 // ---- Coq printers -----------------------------------------------------------------
 
 func coqMeta(m metadb.ChannelRuntimeMeta) string {
-	return vh.App("RuntimeMeta", vh.HexS(m.ChannelID), vh.Z(m.ChannelType), vh.N(m.ChannelEpoch), vh.N(m.LeaderEpoch),
+	return vh.App("RuntimeMeta", hexS(m.ChannelID), vh.Z(m.ChannelType), vh.N(m.ChannelEpoch), vh.N(m.LeaderEpoch),
 		vh.N(m.RouteGeneration), vh.NList(m.Replicas), vh.NList(m.ISR), vh.N(m.Leader), vh.Z(m.MinISR),
 		vh.N(uint64(m.Status)), vh.N(m.Features), vh.Z(m.LeaseUntilMS), vh.N(m.RetentionThroughSeq),
-		vh.Z(m.RetentionUpdatedAtMS), vh.HexS(m.WriteFenceToken), vh.N(m.WriteFenceVersion),
+		vh.Z(m.RetentionUpdatedAtMS), hexS(m.WriteFenceToken), vh.N(m.WriteFenceVersion),
 		vh.N(uint64(m.WriteFenceReason)), vh.Z(m.WriteFenceUntilMS), vh.N(m.DirectoryGeneration))
 }
 
+// hexS renders a string as a byte list; the empty string as [] (shorter case files).
+func hexS(s string) string {
+	if s == "" {
+		return "[]"
+	}
+	return vh.HexS(s)
+}
+
 func coqProof(p metadb.ChannelMigrationCutoverProof) string {
+	if p == (metadb.ChannelMigrationCutoverProof{}) {
+		return "proof_zero"
+	}
 	return vh.App("Proof", vh.N(p.CutoverLEO), vh.N(p.CutoverHW), vh.N(p.DrainedLeaderNode), vh.N(p.DrainedRuntimeGeneration),
 		vh.N(p.DrainedChannelEpoch), vh.N(p.DrainedLeaderEpoch), vh.N(p.DrainedFenceVersion))
 }
 
 func coqProgress(p metadb.ChannelMigrationProgress) string {
+	if p == (metadb.ChannelMigrationProgress{}) {
+		return "progress_zero"
+	}
 	return vh.App("Progress", vh.N(p.LeaderLEO), vh.N(p.LeaderHW), vh.N(p.TargetLEO), vh.N(p.TargetCheckpointHW),
 		vh.N(p.LagRecords), vh.Z(p.StableSinceMS))
 }
 
 func coqTask(t metadb.ChannelMigrationTask) string {
-	return vh.App("Task", vh.HexS(t.TaskID), vh.N(uint64(t.Kind)), vh.N(uint64(t.Status)), vh.N(uint64(t.Phase)),
-		vh.HexS(t.ChannelID), vh.Z(t.ChannelType), vh.N(t.SourceNode), vh.N(t.TargetNode), vh.N(t.DesiredLeader),
-		vh.N(t.BaseChannelEpoch), vh.N(t.BaseLeaderEpoch), vh.HexS(t.FenceToken), vh.N(t.FenceVersion), vh.Z(t.FenceUntilMS),
+	return vh.App("Task", hexS(t.TaskID), vh.N(uint64(t.Kind)), vh.N(uint64(t.Status)), vh.N(uint64(t.Phase)),
+		hexS(t.ChannelID), vh.Z(t.ChannelType), vh.N(t.SourceNode), vh.N(t.TargetNode), vh.N(t.DesiredLeader),
+		vh.N(t.BaseChannelEpoch), vh.N(t.BaseLeaderEpoch), hexS(t.FenceToken), vh.N(t.FenceVersion), vh.Z(t.FenceUntilMS),
 		vh.B(t.EmbeddedLeaderTransfer), vh.N(t.EmbeddedDesiredLeader), vh.N(t.OwnerNodeID), vh.Z(t.OwnerLeaseUntilMS),
 		coqProof(metadb.ChannelMigrationCutoverProof{CutoverLEO: t.CutoverLEO, CutoverHW: t.CutoverHW,
 			DrainedLeaderNode: t.DrainedLeaderNode, DrainedRuntimeGeneration: t.DrainedRuntimeGeneration,
 			DrainedChannelEpoch: t.DrainedChannelEpoch, DrainedLeaderEpoch: t.DrainedLeaderEpoch,
 			DrainedFenceVersion: t.DrainedFenceVersion}),
-		vh.N(uint64(t.Attempt)), vh.Z(t.NextRunAtMS), vh.HexS(t.BlockerCode), vh.HexS(t.BlockerMessage), vh.HexS(t.LastError),
+		vh.N(uint64(t.Attempt)), vh.Z(t.NextRunAtMS), hexS(t.BlockerCode), hexS(t.BlockerMessage), hexS(t.LastError),
 		vh.Z(t.CreatedAtMS), vh.Z(t.UpdatedAtMS), vh.Z(t.CompletedAtMS), coqProgress(t.Progress))
 }
 
 func coqGuard(g guardJ) string {
-	return vh.App("TGuard", vh.HexS(g.Ch), vh.Z(g.Ty), vh.HexS(g.ID), vh.N(uint64(g.St)), vh.N(uint64(g.Ph)),
+	return vh.App("TGuard", hexS(g.Ch), vh.Z(g.Ty), hexS(g.ID), vh.N(uint64(g.St)), vh.N(uint64(g.Ph)),
 		vh.N(g.Own), vh.Z(g.OwnL), vh.Z(g.Up))
 }
 
 func coqRGuard(g rguardJ) string {
-	return vh.App("RGuard", vh.HexS(g.Ch), vh.Z(g.Ty), vh.N(g.CE), vh.N(g.LE), vh.N(g.Ldr), vh.HexS(g.Tok), vh.N(g.FV), vh.N(g.RG))
+	return vh.App("RGuard", hexS(g.Ch), vh.Z(g.Ty), vh.N(g.CE), vh.N(g.LE), vh.N(g.Ldr), hexS(g.Tok), vh.N(g.FV), vh.N(g.RG))
 }
 
 func (c cmdJ) coqTrans() string {
@@ -375,7 +389,7 @@ func (c cmdJ) coq() string {
 		return vh.App("CClaim", coqGuard(c.g()), vh.N(uint64(c.St)), vh.N(uint64(c.Ph)), vh.N(c.Own), vh.Z(c.OwnL), vh.Z(c.Now), vh.Z(c.Up))
 	case "advance":
 		return vh.App("CAdvance", coqGuard(c.g()), vh.N(uint64(c.St)), vh.N(uint64(c.Ph)), vh.N(uint64(c.Att)), vh.Z(c.Next),
-			vh.HexS(c.BC), vh.HexS(c.BM), vh.HexS(c.LErr), vh.Z(c.Up), vh.Z(c.Co), coqProgress(c.pg().real()),
+			hexS(c.BC), hexS(c.BM), hexS(c.LErr), vh.Z(c.Up), vh.Z(c.Co), coqProgress(c.pg().real()),
 			coqProof(c.proof().real()), vh.N(c.EDL))
 	case "set_fence":
 		return vh.App("CSetFence", c.coqTrans(), vh.N(uint64(c.FR)), vh.Z(c.FU))
@@ -390,7 +404,7 @@ func (c cmdJ) coq() string {
 	case "clear_fence":
 		return vh.App("CClear", c.coqTrans(), vh.Z(c.Co))
 	case "abort":
-		return vh.App("CAbort", c.coqTrans(), vh.Z(c.Co), vh.HexS(c.LErr))
+		return vh.App("CAbort", c.coqTrans(), vh.Z(c.Co), hexS(c.LErr))
 	case "gc":
 		return vh.App("CGC", vh.Z(c.Before), vh.Z(int64(c.Limit)))
 	default:
